@@ -188,6 +188,16 @@ def WB.trace {T} (build : Text → Option T) : WB T → List Ev → List T
   | _, [] => []
   | st, e :: es => (WB.step build st e).active :: WB.trace build (WB.step build st e) es
 
+/-- the table one iteration passes to `route.SetTable`, if it gets that far -/
+def WB.installed {T} (build : Text → Option T) (st : WB T) (e : Ev) : Option T :=
+  if (st.recv e).nextText = (st.recv e).lastTable then none else build (st.recv e).nextText
+
+/-- the tables the loop passes to `route.SetTable` over a history, in order: the `SetTable` calls of the writer
+goroutine (used to connect this machine with the cell machine in `Props/C02Compose.lean`) -/
+def WB.installs {T} (build : Text → Option T) : WB T → List Ev → List T
+  | _, [] => []
+  | st, e :: es => (WB.installed build st e).toList ++ WB.installs build (WB.step build st e) es
+
 /-- the concatenated configuration text after each event (independent of `build`) -/
 def textsFrom (svc man : Text) : List Ev → List Text
   | [] => []
